@@ -95,7 +95,11 @@ IT_CHAIN = (
 )
 IT_OTHER = (("dedup",), ("mat", "m1"), ("xfer", "e2"))
 
-IT_FULL = IT_CALC + IT_PROJ + IT_SEL + IT_SORT + IT_SLICE + IT_CHAIN + IT_OTHER
+# a named function that every iteration engine registers in its ``functions`` table with its own meaning:
+# the node that holds it must be evaluated by ITS engine even after the tree has been transferred
+EFN_A = ("efn", R("a"))
+IT_EFN = (("calc", "w", EFN_A), ("sel", ("gt", EFN_A, L(2))))
+IT_FULL = IT_CALC + IT_PROJ + IT_SEL + IT_SORT + IT_SLICE + IT_CHAIN + IT_OTHER + IT_EFN
 
 IT_REDUCED = (
     ("calc", "x", NEG_A),
